@@ -79,8 +79,8 @@ def generate(rng, tier):
 
 def impl(case):
     es, ns, shape2d, region, shape, spacing, adjust = case["args"]
-    e = C.mkarr(es, shape2d, case["op"])
-    n = C.mkarr(ns, shape2d, case["op"])
+    e = C.mkarr(es, shape2d, "es:" + case["op"])
+    n = C.mkarr(ns, shape2d, "ns:" + case["op"])
     e.setflags(write=False)
     n.setflags(write=False)
     r = C.call(vd.block_split, (e, n), spacing=spacing, adjust=adjust, region=region, shape=shape)
